@@ -146,3 +146,21 @@ Proof.
 Qed.
 Goal True. idtac "ASSUMPTIONS-OF C11_example_trailing_comments_on_continuation_lines". Abort.
 Print Assumptions C11_example_trailing_comments_on_continuation_lines.
+
+(* THE COMMENT HANDLER KEEPS EVERY CHARACTER -- for every physical line and every quote state it is entered with
+   (no hypothesis on the line: literals, doubled quotes, a literal left open by an earlier line): when it finds no
+   comment the line is returned as it is; when it splits a comment off, the code part followed by the text of the
+   comment is the line, the comment begins with '!' and is stamped with the number of the line it stands on.
+   (Proved through splitquote_lossless; this is the "text unchanged" half of the property at the place where
+   comments are cut out of lines.) *)
+From FV Require Import HicLaws.
+Theorem C11_comment_handler_keeps_every_character :
+  forall l n q cd q' oc, Reader.handle_inline_comment l n q = (cd, q', oc) ->
+  match oc with
+  | None => cd = l
+  | Some (Reader.RComment cm a b _) => cd ++ cm = l /\ a = n /\ b = n /\ Text.starts_with ["!"%char] cm = true
+  | Some _ => False
+  end.
+Proof. exact hic_lossless. Qed.
+Goal True. idtac "ASSUMPTIONS-OF C11_comment_handler_keeps_every_character". Abort.
+Print Assumptions C11_comment_handler_keeps_every_character.
